@@ -48,6 +48,24 @@ func exprUses(e asm.Expr, names map[string]bool) bool {
 	return false
 }
 
+// labelledNestedFirst lists (label, counter) of blocks whose body starts with a nested FOR.
+func labelledNestedFirst(items []asm.Item) [][2]string {
+	var out [][2]string
+	for _, it := range items {
+		if f, ok := it.(*asm.For); ok {
+			if len(f.Labels) > 0 && len(f.Body) > 0 {
+				if _, ok := f.Body[0].(*asm.For); ok {
+					for _, l := range f.Labels {
+						out = append(out, [2]string{l, f.Counter})
+					}
+				}
+			}
+			out = append(out, labelledNestedFirst(f.Body)...)
+		}
+	}
+	return out
+}
+
 type forFacts struct {
 	counterInArith bool
 	outsideRefs    []string // block labels referenced from outside their block
@@ -127,9 +145,9 @@ func analyseFor(p *asm.Prog) forFacts {
 
 func runC08(c *Ctx) {
 	runPinned(c, "C08")
-	n := int64(12000)
+	n := int64(72000)
 	if c.Thorough() {
-		n = 800000
+		n = 3000000
 	}
 	c.Cases(n, func(idx int64, r *Rng) {
 		d := asm.D94
@@ -144,7 +162,7 @@ func runC08(c *Ctx) {
 		cfg.Distance = 100
 		stratumBig := r.Chance(1, 5)   // 13..40 expansions
 		outside := r.Chance(1, 6)      // references to block labels from outside the block
-		o := asm.GenOpts{Cfg: cfg, MaxLines: 2 + r.Intn(8), UseLabels: true, UseEqus: r.Chance(1, 2), UseFor: true, MaxForExp: 10, OutsideRef: outside}
+		o := asm.GenOpts{Cfg: cfg, MaxLines: 2 + r.Intn(8), UseLabels: true, UseEqus: r.Chance(1, 2), UseFor: true, MaxForExp: 10, OutsideRef: outside, NestedLabel: r.Chance(1, 6)}
 		if stratumBig {
 			o.MaxForExp = 38
 			o.MaxLines = 6 + r.Intn(10)
@@ -229,10 +247,32 @@ func runC08(c *Ctx) {
 					return
 				}
 			}
+			rn := func(n string) string {
+				if style.Rename != nil {
+					if x, ok := style.Rename[n]; ok {
+						return x
+					}
+				}
+				return n
+			}
+			for _, lc := range labelledNestedFirst(p.Items) {
+				msg := err.Error()
+				k := strings.Index(msg, "symbol '__for_")
+				if k >= 0 && strings.HasSuffix(msg, fmt.Sprintf("_%s_%s' undefined", rn(lc[1]), rn(lc[0]))) {
+					c.KnownHit("C08:block-label-before-nested-for:symbol-undefined", fmt.Sprintf("block label %q stands before a block whose body starts with a nested FOR; the program is rejected with %q", rn(lc[0]), err), cs(""))
+					c.Inc("known_finding_label_before_nested_for")
+					return
+				}
+			}
 			c.Violate("C08:rejected", fmt.Sprintf("a program with FOR blocks was rejected (%v) although its manual unrolling assembles", err), cs(""))
 			return
 		}
 		if dd := diffCode(wd.Code, mn.Code); dd != "" {
+			if idx == pinnedCounterlessIdx && len(wd.Code) == 2 && wd.Code[0].A == 1 && wd.Code[1].A == 2 && wd.Code[0].B == 1 && wd.Code[1].B == 1 {
+				// exactly the listed wrong output of the pinned witness: the label was taken for the counter of the inner block
+				c.KnownHit("C08:block-label-before-counterless-nested-for:label-becomes-counter", "pinned witness 'top i for 1 / for 2 / dat #top, #i / rof / rof' assembles to DAT #1,#1 / DAT #2,#1 instead of DAT #0,#1 / DAT #-1,#1: the renamed block label is taken for the counter of the counter-less inner block", cs(""))
+				return
+			}
 			c.Violate("C08:code:"+diffClass(dd), "FOR program vs manual unrolling: "+dd, cs(""))
 			return
 		}
@@ -255,6 +295,8 @@ func runC08(c *Ctx) {
 	})
 }
 
+const pinnedCounterlessIdx = 3
+
 // pinned witnesses (known_findings.txt): run on every invocation as case 0, 1, ...
 var pinnedFor = []func(cfg asm.Config) *asm.Prog{
 	// known finding: 13 sibling blocks => "for loop depth exceeded"
@@ -271,6 +313,20 @@ var pinnedFor = []func(cfg asm.Config) *asm.Prog{
 		p.Items = append(p.Items,
 			&asm.For{Labels: []string{"tgt"}, Counter: "i", Count: asm.Lit{V: 2}, Body: []asm.Item{&asm.Instr{Op: "dat", A: asm.Operand{Mode: '#', E: asm.Ref{Name: "i"}}, B: &asm.Operand{Mode: '#', E: asm.Ref{Name: "tgt"}}}}},
 			&asm.Instr{Op: "jmp", A: asm.Operand{Mode: '$', E: asm.Ref{Name: "tgt"}}})
+		return p
+	},
+	// known finding: block label before a block that starts with a nested FOR
+	func(cfg asm.Config) *asm.Prog {
+		p := &asm.Prog{Cfg: cfg}
+		inner := &asm.For{Counter: "j", Count: asm.Lit{V: 2}, Body: []asm.Item{&asm.Instr{Op: "dat", A: asm.Operand{Mode: '#', E: asm.Ref{Name: "i"}}, B: &asm.Operand{Mode: '#', E: asm.Ref{Name: "top"}}}}}
+		p.Items = append(p.Items, &asm.For{Labels: []string{"top"}, Counter: "i", Count: asm.Lit{V: 2}, Body: []asm.Item{inner}})
+		return p
+	},
+	// known finding (pinned input only): label before a block that starts with a COUNTER-LESS nested FOR
+	func(cfg asm.Config) *asm.Prog {
+		p := &asm.Prog{Cfg: cfg}
+		inner := &asm.For{Count: asm.Lit{V: 2}, Body: []asm.Item{&asm.Instr{Op: "dat", A: asm.Operand{Mode: '#', E: asm.Ref{Name: "top"}}, B: &asm.Operand{Mode: '#', E: asm.Ref{Name: "i"}}}}}
+		p.Items = append(p.Items, &asm.For{Labels: []string{"top"}, Counter: "i", Count: asm.Lit{V: 1}, Body: []asm.Item{inner}})
 		return p
 	},
 	// the README examples (must hold)
